@@ -22,6 +22,9 @@ LEVEL = "exploration"
 EXPLICIT = (ValueError, NotImplementedError)
 
 
+CPU_BUDGET_S = 20.0
+
+
 class Timeout(Exception):
     pass
 
@@ -36,8 +39,10 @@ def plan_problems(planf_name, shape, sc, tc, itemsize, min_mem, max_mem):
     from cubed.vendor.rechunker.algorithm import multistage_rechunking_plan
 
     planf = multistage_regular_rechunking_plan if planf_name == "regular" else multistage_rechunking_plan
-    signal.signal(signal.SIGALRM, _alarm)
-    signal.setitimer(signal.ITIMER_REAL, 5.0)
+    # CPU-time budget (ITIMER_VIRTUAL), not wall-clock: a loaded machine must not turn a slow
+    # call into a verdict; a call normally takes milliseconds
+    signal.signal(signal.SIGVTALRM, _alarm)
+    signal.setitimer(signal.ITIMER_VIRTUAL, CPU_BUDGET_S)
     try:
         with warnings.catch_warnings():
             warnings.simplefilter("ignore")
@@ -45,11 +50,11 @@ def plan_problems(planf_name, shape, sc, tc, itemsize, min_mem, max_mem):
     except EXPLICIT:
         return "rejected", []
     except Timeout:
-        return "timeout", ["planner did not terminate within 5 s"]
+        return "timeout", [f"planner did not terminate within {CPU_BUDGET_S:.0f} s of CPU time"]
     except BaseException as e:  # noqa
         return "crash", [f"planner raised {type(e).__name__}: {str(e)[:100]}"]
     finally:
-        signal.setitimer(signal.ITIMER_REAL, 0)
+        signal.setitimer(signal.ITIMER_VIRTUAL, 0)
     probs = []
     if not stages:
         return "ok", ["empty stage list"]
@@ -201,12 +206,7 @@ def e2e_group(item):
                         cnt["e2e"] += 1
                         w = World()
                         try:
-                            allowed = 4_000_000 if mem == "ample" else 8 * max(prod(sc), prod(tc)) * 6 + 100
-                            reserved = 0
-                            if mem == "tight-reserved":
-                                # half of the budget is reserved for non-data memory: the planner must work with what is left
-                                reserved = allowed
-                                allowed = 2 * allowed
+                            allowed, reserved = budget(mem, sc, tc)
                             spec = cubed.Spec(intermediate_store=w.store("inter"), allowed_mem=allowed, reserved_mem=reserved)
                             x = xp.asarray(V, chunks=sc, spec=spec)
                             try:
@@ -268,11 +268,183 @@ def e2e_group(item):
     return cnt, probs
 
 
+def request_forms(shape, sc, tc):
+    """(label, request, effective per-axis chunk length) - every way of writing a rechunk request the API accepts"""
+    nd = len(shape)
+    out = [("list", list(tc), tc),
+           ("dict-all", {i: tc[i] for i in range(nd)}, tc),
+           ("dict-negative-keys", {i - nd: tc[i] for i in range(nd)}, tc),
+           ("dict-last-negative", {-1: tc[-1]}, tuple(sc[:-1]) + (tc[-1],)),
+           ("dict-first", {0: tc[0]}, (tc[0],) + tuple(sc[1:])),
+           ("dict-none-value", {0: None, -1: tc[-1]} if nd > 1 else {0: None}, ((sc[0],) + tuple(sc[1:-1]) + (tc[-1],)) if nd > 1 else (sc[0],)),
+           ("tuple-none", (None,) + tuple(tc[1:]), (sc[0],) + tuple(tc[1:])),
+           ("tuple-minus-one", (-1,) + tuple(tc[1:]), (shape[0],) + tuple(tc[1:])),
+           ("dict-minus-one-value", {-1: -1}, tuple(sc[:-1]) + (shape[-1],))]
+    if nd > 1:
+        out.append(("dict-mixed-keys", {0: tc[0], -1: tc[-1]}, (tc[0],) + tuple(sc[1:-1]) + (tc[-1],)))
+    return out
+
+
+def forms_group(item):
+    """rechunk requests written as dicts (positive, negative, partial keys), lists, with None and -1 entries"""
+    shapes, tier = item
+    import cubed
+    import cubed.array_api as xp
+    import numpy as np
+
+    from ..cexec import ControlledExecutor
+    from ..scope import mkdata
+    from ..tstore import World
+
+    cnt = Counter()
+    probs = []
+    seen = set()
+    for shape in shapes:
+        V = mkdata(shape, "float64")
+        for sc in itertools.product(*[range(1, k + 1) for k in shape]):
+            for tc in itertools.product(*[range(1, k + 1) for k in shape]):
+                for label, req, eff in request_forms(shape, sc, tc):
+                    case = dict(part="forms", shape=shape, sc=sc, tc=tc, form=label)
+                    cnt["request_forms"] += 1
+                    w = World()
+                    try:
+                        spec = cubed.Spec(intermediate_store=w.store("inter"), allowed_mem=4_000_000, reserved_mem=0)
+                        x = xp.asarray(V, chunks=sc, spec=spec)
+                        try:
+                            with warnings.catch_warnings():
+                                warnings.simplefilter("ignore")
+                                y = x.rechunk(req)
+                        except EXPLICIT:
+                            cnt["request_forms_rejected"] += 1
+                            continue
+                        except Exception as e:
+                            text, kind = f"rechunk({req!r}) raised {type(e).__name__}: {str(e)[:100]}", "planner-crash"
+                        else:
+                            exp_chunks = tuple(tuple(min(t, n - o) for o in range(0, n, t)) for n, t in zip(shape, eff))
+                            text = kind = None
+                            if tuple(y.chunks) != exp_chunks:
+                                kind, text = "wrong-chunks", f"rechunk({req!r}) of an array chunked {sc} declares chunks {y.chunks}, the request means {exp_chunks}"
+                            else:
+                                try:
+                                    got = y.compute(executor=ControlledExecutor(world=w))
+                                    if not np.array_equal(got, V):
+                                        kind, text = "wrong-values", f"rechunk({req!r}) changed element values"
+                                except Exception as e:
+                                    kind, text = "execution-error", f"rechunk({req!r}) failed while running: {type(e).__name__}: {str(e)[:100]}"
+                                cnt["request_forms_ok"] += 1
+                        if kind and (kind, label) not in seen:
+                            seen.add((kind, label))
+                            probs.append((dict(kind=kind, planner="rechunk", form=label), case, f"{text}: {case}"))
+                    finally:
+                        w.dispose()
+    return cnt, probs
+
+
+def plan_sig(rp):
+    return tuple((tuple(o.source_chunks), tuple(o.copy_chunks), tuple(o.target_chunks)) for o in rp.copy_ops)
+
+
+def budget(mem, sc, tc):
+    # "tightest": five chunks' worth - the level at which the regular and the irregular planner start to plan differently
+    allowed = 4_000_000 if mem == "ample" else 8 * max(prod(sc), prod(tc)) * (5 if mem == "tightest" else 6) + 100
+    reserved = 0
+    if mem == "tight-reserved":
+        # half of the budget is reserved for non-data memory: the planner must work with what is left
+        reserved = allowed
+        allowed = 2 * allowed
+    return allowed, reserved
+
+
+def history_group(item):
+    """The answer to a rechunk request must not depend on earlier requests made on the same array.
+
+    For every (shape, source chunks, budget): every request (target chunks x min_mem x allow_irregular) is
+    answered once on a fresh array (reference), then all of them are issued on ONE array - forwards through
+    rechunk_plan, backwards through x.rechunk - and each answer is compared with the reference."""
+    shapes, tier = item
+    import cubed
+    import cubed.array_api as xp
+    from cubed.core.rechunk import rechunk_plan
+
+    from ..scope import mkdata
+
+    cnt = Counter()
+    probs = []
+    seen = set()
+
+    def answer(x, call, tc, mm, irr):
+        try:
+            with warnings.catch_warnings():
+                warnings.simplefilter("ignore")
+                if call == "plan":
+                    return plan_sig(rechunk_plan(x, tc, min_mem=mm, allow_irregular=irr))
+                y = x.rechunk(tc, min_mem=mm, allow_irregular=irr)
+                return (tuple(y.chunks), dag_sig(y))
+        except EXPLICIT as e:
+            return ("rejected", type(e).__name__)
+        except Exception as e:
+            return ("crash", type(e).__name__, str(e)[:80])
+
+    for shape in shapes:
+        V = mkdata(shape, "float64")
+        tcs = list(itertools.product(*[range(1, k + 1) for k in shape]))
+        for sc in tcs:
+            for level in ("ample", "five-source-chunks", "five-largest"):
+                allowed = {"ample": 4_000_000, "five-source-chunks": 8 * prod(sc) * 5 + 100, "five-largest": 8 * prod(shape) * 5 // 2 + 100}[level]
+                spec = cubed.Spec(allowed_mem=allowed, reserved_mem=0)
+                reqs = [(tc, mm, irr) for tc in tcs if tc != sc for mm in (None, 8 * prod(sc)) for irr in (True, False)]
+                ref = {}
+                for call in ("plan", "rechunk"):
+                    for r in reqs:
+                        ref[(call,) + r] = answer(xp.asarray(V, chunks=sc, spec=spec), call, *r)
+                modes_differ = sum(1 for (tc, mm, irr) in reqs if irr and ref[("plan", tc, mm, True)] != ref[("plan", tc, mm, False)])
+                cnt["history_requests_where_modes_plan_differently"] += modes_differ
+                x = xp.asarray(V, chunks=sc, spec=spec)
+                step = 0
+                for call, order in (("plan", reqs), ("rechunk", reqs[::-1]), ("plan", reqs[::-1])):
+                    for r in order:
+                        step += 1
+                        cnt["history_calls"] += 1
+                        got = answer(x, call, *r)
+                        want = ref[(call,) + r]
+                        if got != want and "history" not in seen:
+                            seen.add("history")
+                            case = dict(part="history", shape=shape, sc=sc, level=level)
+                            probs.append((dict(kind="history-dependent-plan", planner="rechunk_plan" if call == "plan" else "rechunk"), case,
+                                          f"{call} of {r[0]} (min_mem={r[1]}, allow_irregular={r[2]}) as call {step} on one array chunked {sc} (allowed_mem={allowed}) "
+                                          f"answered {got}; the same request on a fresh array gets {want}: {case}"))
+    return cnt, probs
+
+
+def dag_sig(y):
+    """name-free structure of the plan an array was built from: arrays (shape, chunks) and ops (kind, tasks, projected memory) in topological order"""
+    import cubed
+    import networkx as nx
+    dag = cubed.plan(y, optimize_graph=False).dag
+    out = []
+    for n in nx.lexicographical_topological_sort(dag, key=lambda k: (len(k), k)):
+        d = dag.nodes[n]
+        if d.get("type") == "array":
+            t = d.get("target")
+            ch = getattr(t, "chunks", None)
+            out.append(("array", tuple(getattr(t, "shape", ()) or ()), tuple(ch) if ch is not None else None))
+        elif "primitive_op" in d:
+            po = d["primitive_op"]
+            out.append(("op", d.get("op_name"), po.num_tasks, po.projected_mem))
+    return tuple(out)
+
+
 def replay_case(case):
     t = lambda x: tuple(x) if isinstance(x, list) else x
     if case["part"] == "planner":
         out, ps = plan_problems(case["planf"], t(case["shape"]), t(case["sc"]), t(case["tc"]), case["itemsize"], case["min_mem"], case["max_mem"])
         return [Problem(dict(kind="replayed", planner=case["planf"]), case, x) for x in ps]
+    if case["part"] == "history":
+        cnt, probs = history_group(([t(case["shape"])], "thorough"))
+        return [Problem(sig, c, d) for sig, c, d in probs]
+    if case["part"] == "forms":
+        cnt, probs = forms_group(([t(case["shape"])], "thorough"))
+        return [Problem(sig, c, d) for sig, c, d in probs if c["form"] == case["form"]]
     cnt, probs = e2e_group(([t(case["shape"])], "thorough"))
     return [Problem(sig, c, d) for sig, c, d in probs if tuple(c["sc"]) == t(case["sc"]) and tuple(c["tc"]) == t(case["tc"])]
 
@@ -302,6 +474,20 @@ def run(ctx):
     ctx.set("distinct_nontrivial", tot["nontrivial"] + tot["e2e_ok"])
     ctx.set("planner_calls", tot["calls"])
     ctx.set("planner_plans_checked", tot["ok"])
+    fshapes = [(n,) for n in range(1, 7)] + [s for s in itertools.product(range(1, 4), repeat=2)] + ([(2, 2, 3)] if tier == "quick" else [(2, 3, 3), (3, 2, 4)])
+    for cnt, probs in ctx.pmap(forms_group, [([s], tier) for s in fshapes]):
+        tot.update(cnt)
+        for sig, case, text in probs:
+            ctx.problem(sig, case, text)
+    hshapes = [(n,) for n in range(2, 11 if tier == "quick" else 15)] + [s for s in itertools.product(range(1, 4 if tier == "quick" else 5), repeat=2) if prod(s) > 1]
+    for cnt, probs in ctx.pmap(history_group, [([s], tier) for s in hshapes]):
+        tot.update(cnt)
+        for sig, case, text in probs:
+            ctx.problem(sig, case, text)
+    ctx.set("request_forms_checked", tot["request_forms"])
+    ctx.set("request_forms_completed", tot["request_forms_ok"])
+    ctx.set("history_calls_compared", tot["history_calls"])
+    ctx.set("history_requests_where_modes_plan_differently", tot["history_requests_where_modes_plan_differently"])
     ctx.set("planner_rejections", tot["rejected"])
     ctx.set("planner_multistage_plans", tot["multistage_plans"])
     ctx.set("end_to_end_rechunks", tot["e2e"])
@@ -311,5 +497,5 @@ def run(ctx):
     ctx.set("rule", "planner call = (planner, shape, source chunks, target chunks, itemsize, min_mem, max_mem): every 1-d n<=24/40, 2-d dims<=5/8, 3-d dims<=3/4, "
             "all chunk pairs, memory ladders around the admission boundaries; distinct_nontrivial = accepted plans with source != target chunks plus completed end-to-end rechunks")
     ctx.sample(dict(planner="regular", shape=[7], source_chunks=[2], target_chunks=[5], itemsize=8, min_mem=1, max_mem=56))
-    ctx.assumptions += ["a planner call is given 5 s before it counts as non-terminating",
+    ctx.assumptions += ["a planner call is given 20 s of CPU time (ITIMER_VIRTUAL, load-independent) before it counts as non-terminating",
                         "reads need not align with source chunks (only with the chunks a stage writes)"]
